@@ -362,14 +362,22 @@ class EngineRun(Engine):
     """
 
     def __init__(self, spec, x, y, *, gsm_mode="hooks", clipping="flat", C=1.0, reduction="mean",
-                 max_phys=None, sigma=1.0, noise="zero", ebs=None, accum=1, col=False, inner="sgd", lr=0.0, capture=False):
+                 max_phys=None, sigma=1.0, noise="zero", ebs=None, accum=1, col=False, inner="sgd", lr=0.0, capture=False, closure=False):
         n = len(x)
         super().__init__(spec, gsm_mode=gsm_mode, clipping=clipping, C=C, reduction=reduction, sigma=sigma,
                          ebs=ebs if ebs is not None else max(n, 1), col=col, inner=inner, lr=lr, capture=capture, noise=noise)
         try:
             self.opt.zero_grad()
             self.k_last = 1
-            if max_phys is None:
+            if max_phys is None and closure and accum == 1 and gsm_mode != "ghost":
+                # `optimizer.step(closure)`: the DP optimizer evaluates the closure once, then clips / noises;
+                # the wrapped optimizer must not evaluate it again
+                def _closure():
+                    self.opt.zero_grad()
+                    self.fb(x, y)
+
+                self.opt.step(_closure)
+            elif max_phys is None:
                 # `accum` backward passes over consecutive slices, then one step
                 cuts = np.array_split(np.arange(n), accum) if n else [np.arange(0)]
                 for c in cuts:
